@@ -1529,11 +1529,11 @@ static void lin3_frame(const FrameCase &c, pbt::Ctx &ctx)
 
 static void register_part1()
 {
-  reg<LinCase<2>>("linear2f_algebra", 60000, genLinCase<2>(), lin_algebra<L2f>);
-  reg<LinCase<2>>("linear2d_algebra", 60000, genLinCase<2>(), lin_algebra<L2d>);
-  reg<LinCase<3>>("linear3f_algebra", 60000, genLinCase<3>(), lin_algebra<L3f>);
-  reg<LinCase<3>>("linear3fa_algebra", 60000, genLinCase<3>(), lin_algebra<L3fa>);
-  reg<LinCase<3>>("linear3d_algebra", 60000, genLinCase<3>(), lin_algebra<L3d>);
+  reg<LinCase<2>>("linear2f_algebra", 9000, genLinCase<2>(), lin_algebra<L2f>);
+  reg<LinCase<2>>("linear2d_algebra", 9000, genLinCase<2>(), lin_algebra<L2d>);
+  reg<LinCase<3>>("linear3f_algebra", 9000, genLinCase<3>(), lin_algebra<L3f>);
+  reg<LinCase<3>>("linear3fa_algebra", 9000, genLinCase<3>(), lin_algebra<L3fa>);
+  reg<LinCase<3>>("linear3d_algebra", 9000, genLinCase<3>(), lin_algebra<L3d>);
 }
 static void register_part2()
 {
@@ -1543,16 +1543,16 @@ static void register_part2()
     c.w = std::get<1>(t);
     return c;
   });
-  reg<Rot2Case>("linear2f_rotate", 30000, g2, lin2_rotate<L2f>);
-  reg<Rot2Case>("linear2d_rotate", 30000, g2, lin2_rotate<L2d>);
-  reg<MatP2>("linear2f_orthogonal", 30000, genMatP2(), lin2_orthogonal<L2f>);
-  reg<MatP2>("linear2d_orthogonal", 30000, genMatP2(), lin2_orthogonal<L2d>);
-  reg<Rot3Case>("linear3f_rotate", 40000, genRot3Case(), lin3_rotate<L3f>);
-  reg<Rot3Case>("linear3fa_rotate", 40000, genRot3Case(), lin3_rotate<L3fa>);
-  reg<Rot3Case>("linear3d_rotate", 40000, genRot3Case(), lin3_rotate<L3d>);
-  reg<FrameCase>("linear3f_frame", 40000, genFrameCase(), lin3_frame<L3f>);
-  reg<FrameCase>("linear3fa_frame", 40000, genFrameCase(), lin3_frame<L3fa>);
-  reg<FrameCase>("linear3d_frame", 40000, genFrameCase(), lin3_frame<L3d>);
+  reg<Rot2Case>("linear2f_rotate", 4000, g2, lin2_rotate<L2f>);
+  reg<Rot2Case>("linear2d_rotate", 4000, g2, lin2_rotate<L2d>);
+  reg<MatP2>("linear2f_orthogonal", 4000, genMatP2(), lin2_orthogonal<L2f>);
+  reg<MatP2>("linear2d_orthogonal", 4000, genMatP2(), lin2_orthogonal<L2d>);
+  reg<Rot3Case>("linear3f_rotate", 5000, genRot3Case(), lin3_rotate<L3f>);
+  reg<Rot3Case>("linear3fa_rotate", 5000, genRot3Case(), lin3_rotate<L3fa>);
+  reg<Rot3Case>("linear3d_rotate", 5000, genRot3Case(), lin3_rotate<L3d>);
+  reg<FrameCase>("linear3f_frame", 5000, genFrameCase(), lin3_frame<L3f>);
+  reg<FrameCase>("linear3fa_frame", 5000, genFrameCase(), lin3_frame<L3fa>);
+  reg<FrameCase>("linear3d_frame", 5000, genFrameCase(), lin3_frame<L3d>);
 }
 
 
@@ -2083,16 +2083,16 @@ static void aff3_lookat(const LookCase &c, pbt::Ctx &ctx)
 
 static void register_part3()
 {
-  reg<AffCase<2>>("affine2f_algebra", 40000, genAffCase<2>(), aff_algebra<A2f>);
-  reg<AffCase<3>>("affine3f_algebra", 40000, genAffCase<3>(), aff_algebra<A3f>);
-  reg<AffCase<3>>("affine3fa_algebra", 40000, genAffCase<3>(), aff_algebra<A3fa>);
-  reg<AffCase<3>>("affine3d_algebra", 40000, genAffCase<3>(), aff_algebra<A3d>);
+  reg<AffCase<2>>("affine2f_algebra", 11000, genAffCase<2>(), aff_algebra<A2f>);
+  reg<AffCase<3>>("affine3f_algebra", 11000, genAffCase<3>(), aff_algebra<A3f>);
+  reg<AffCase<3>>("affine3fa_algebra", 11000, genAffCase<3>(), aff_algebra<A3fa>);
+  reg<AffCase<3>>("affine3d_algebra", 11000, genAffCase<3>(), aff_algebra<A3d>);
 }
 static void register_part4()
 {
-  reg<Bld3Case>("affine3f_builders", 30000, genBld3Case(), aff3_builders<A3f>);
-  reg<Bld3Case>("affine3fa_builders", 30000, genBld3Case(), aff3_builders<A3fa>);
-  reg<Bld3Case>("affine3d_builders", 30000, genBld3Case(), aff3_builders<A3d>);
+  reg<Bld3Case>("affine3f_builders", 6000, genBld3Case(), aff3_builders<A3f>);
+  reg<Bld3Case>("affine3fa_builders", 6000, genBld3Case(), aff3_builders<A3fa>);
+  reg<Bld3Case>("affine3d_builders", 6000, genBld3Case(), aff3_builders<A3d>);
   auto g2 = rc::gen::map(rc::gen::tuple(genAngle(), genVec<2>(VMAX), genVec<2>(VMAX)), [](const std::tuple<double, A2, A2> &t) {
     Bld2Case c;
     c.ang = std::get<0>(t);
@@ -2100,10 +2100,10 @@ static void register_part4()
     c.s = std::get<2>(t);
     return c;
   });
-  reg<Bld2Case>("affine2f_builders", 30000, g2, aff2_builders);
-  reg<LookCase>("affine3f_lookat", 30000, genLookCase(), aff3_lookat<A3f>);
-  reg<LookCase>("affine3fa_lookat", 30000, genLookCase(), aff3_lookat<A3fa>);
-  reg<LookCase>("affine3d_lookat", 30000, genLookCase(), aff3_lookat<A3d>);
+  reg<Bld2Case>("affine2f_builders", 6000, g2, aff2_builders);
+  reg<LookCase>("affine3f_lookat", 6000, genLookCase(), aff3_lookat<A3f>);
+  reg<LookCase>("affine3fa_lookat", 6000, genLookCase(), aff3_lookat<A3fa>);
+  reg<LookCase>("affine3d_lookat", 6000, genLookCase(), aff3_lookat<A3d>);
 }
 
 
@@ -2569,7 +2569,7 @@ static void quat_slerp(const SlerpCase &c, pbt::Ctx &ctx)
     ub = ud;
     break;
   case 6: {
-    L cs = 0.9995L + (c.d[1] < 0 ? -1 : 1) * mag * 0.01L;  // 0.9995 -+ [1e-9, 1e-3]
+    L cs = 0.9995L + (c.d[1] < 0 ? -1 : 1) * std::min(mag * 0.01L, 4.9e-4L);  // 0.9995 -+ [1e-9, 4.9e-4] (< 1)
     ub = qscale(qadd(qscale(ua, cs), qscale(perp, sqrtl(1 - cs * cs))), c.d[0] < 0 ? -1 : 1);
     break;
   }
@@ -2641,15 +2641,15 @@ static void quat_slerp(const SlerpCase &c, pbt::Ctx &ctx)
 
 static void register_part5()
 {
-  reg<QAlgCase>("quatf_algebra", 50000, genQAlgCase(), quat_algebra<float>);
-  reg<QAlgCase>("quatd_algebra", 50000, genQAlgCase(), quat_algebra<double>);
-  reg<Rot3Case>("quatf_rotate", 40000, genRot3Case(), quat_rotate<float>);
-  reg<Rot3Case>("quatd_rotate", 40000, genRot3Case(), quat_rotate<double>);
+  reg<QAlgCase>("quatf_algebra", 12000, genQAlgCase(), quat_algebra<float>);
+  reg<QAlgCase>("quatd_algebra", 12000, genQAlgCase(), quat_algebra<double>);
+  reg<Rot3Case>("quatf_rotate", 10000, genRot3Case(), quat_rotate<float>);
+  reg<Rot3Case>("quatd_rotate", 10000, genRot3Case(), quat_rotate<double>);
 }
 static void register_part6()
 {
-  reg<QMatCase>("quatf_from_matrix", 60000, genQMatCase(), quat_from_matrix<float>);
-  reg<QMatCase>("quatd_from_matrix", 60000, genQMatCase(), quat_from_matrix<double>);
+  reg<QMatCase>("quatf_from_matrix", 8000, genQMatCase(), quat_from_matrix<float>);
+  reg<QMatCase>("quatd_from_matrix", 8000, genQMatCase(), quat_from_matrix<double>);
   auto gy = rc::gen::map(rc::gen::tuple(genAngle(), genAngle(), genAngle(), genVec<3>(VMAX)), [](const std::tuple<double, double, double, A3> &t) {
     YprCase c;
     c.yaw = std::get<0>(t);
@@ -2658,10 +2658,10 @@ static void register_part6()
     c.w = std::get<3>(t);
     return c;
   });
-  reg<YprCase>("quatf_yaw_pitch_roll", 40000, gy, quat_ypr<float>);
-  reg<YprCase>("quatd_yaw_pitch_roll", 40000, gy, quat_ypr<double>);
-  reg<SlerpCase>("quatf_slerp", 60000, genSlerpCase(), quat_slerp<float>);
-  reg<SlerpCase>("quatd_slerp", 60000, genSlerpCase(), quat_slerp<double>);
+  reg<YprCase>("quatf_yaw_pitch_roll", 6000, gy, quat_ypr<float>);
+  reg<YprCase>("quatd_yaw_pitch_roll", 6000, gy, quat_ypr<double>);
+  reg<SlerpCase>("quatf_slerp", 9000, genSlerpCase(), quat_slerp<float>);
+  reg<SlerpCase>("quatd_slerp", 9000, genSlerpCase(), quat_slerp<double>);
 }
 
 static void register_properties()
